@@ -41,7 +41,14 @@ Definition gtask_of {V SCP} (t : @task V SCP) : gtask V SCP := (t_key t, t_in t,
 
 (* loadChannels / load: the run continues on the checkpoint's channels ([restore]: ls_cs := cp_cs c) *)
 Definition model_load {V} (ch dc : chan V) : chan V := dc.
-Definition model_load_channels {V} (own cp : chans V) : chans V := cp.
+(* which OBJECT lives on as the channel of a key: the one Compile built (it keeps its unexported parts zeroValue /
+   emptyStream, which a checkpoint does not carry: dag_channel_rebuilt of Model/CheckpointTable.v), or the one decoded
+   from the checkpoint (it has none). The model's run continues on compiled objects holding the checkpoint's progress. *)
+Definition live_chan (V : Type) : Type := (chan V * bool)%type.
+Definition compiled_object {V} (c : chan V) : live_chan V := (c, true).
+Definition decoded_object {V} (c : chan V) : live_chan V := (c, false).
+Definition model_load_channels {V} (own cp : chans V) : list (key * live_chan V) :=
+  map (fun kc => (fst kc, compiled_object (snd kc))) cp.
 Definition model_forward {SCP} (cp : option (list (N * SCP))) (k : N) : fwd SCP := fwd_of (nlist_get k (subs_of cp)).
 (* one task of [restore] / [mk_task] *)
 Definition model_restore_task {V SCP} (cp : option (list (N * SCP))) (skip : list N) (kv : N * V) : gtask V SCP :=
